@@ -175,6 +175,21 @@ int main(int argc, char **argv) {
         else bad = Compare(*ra[i], *oa[i], "att" + std::to_string(i));
       }
     }
+    // Attribute metadata stays attached to *its* attribute: the attribute the decoded geometry holds under that unique
+    // id is the one the source geometry holds under it (same type, data type, component count).
+    if (bad.empty()) {
+      for (auto &am : out->attribute_metadatas()) {
+        const uint32_t uid = am->att_unique_id();
+        const vf::Attr *src = nullptr;
+        for (auto &a : g.atts) if (a.unique_id == uid) src = &a;
+        const int did = dr.pc->GetAttributeIdByUniqueId(uid);
+        if (src == nullptr) { if (did >= 0) bad = "attribute metadata for unique id " + std::to_string(uid) + ", which no source attribute has, is attached to decoded attribute " + std::to_string(did); continue; }
+        if (did < 0) { bad = "attribute metadata for unique id " + std::to_string(uid) + " is attached to no decoded attribute"; break; }
+        const PointAttribute *da = dr.pc->attribute(did);
+        if (da->attribute_type() != src->type || da->num_components() != src->nc || da->data_type() != src->dt) { bad = "attribute metadata for unique id " + std::to_string(uid) + " is now attached to a different attribute (type " + std::to_string(da->attribute_type()) + " vs " + std::to_string(src->type) + ")"; break; }
+        rep.count("attribute_metadata_links_checked");
+      }
+    }
     if (!bad.empty()) { rep.violation("metadata-altered/" + cls, desc + " :: " + bad, arts); return; }
     const int method = static_cast<uint8_t>(er.bytes[8]);
     rep.count(std::string("config/") + (g.is_mesh ? (method == MESH_EDGEBREAKER_ENCODING ? "edgebreaker" : "mesh-sequential") : (method == POINT_CLOUD_KD_TREE_ENCODING ? "kd-tree" : "pc-sequential")));
